@@ -926,7 +926,10 @@ def _rrsig():
 
 @register(DNS + 'DnsRecordMx')
 def _mx():
-    return obj(DNS + 'DnsRecordMx', uint(16), S(DNS + 'DnsNameUncompressed'))
+    # the exchange as a name object, or as text the way zone files spell it (absolute notation, trailing dot)
+    absolute = st.lists(st.text(alphabet='abcdefghijklmnopqrstuvwxyz0123456789', min_size=1, max_size=12), min_size=0,
+                        max_size=4).map(lambda labels: '.'.join(labels) + '.')
+    return obj(DNS + 'DnsRecordMx', uint(16), st.one_of(S(DNS + 'DnsNameUncompressed'), S(DNS + 'DnsNameUncompressed'), absolute))
 
 
 @register(DNS + 'DnsRecordTxt')
